@@ -11,9 +11,11 @@ flock /tmp/sdfx-mut.lock git -C /repo worktree add -q --detach "$wt" HEAD || exi
 cleanup() { rm -rf "$wt-ev"; flock /tmp/sdfx-mut.lock git -C /repo worktree remove --force "$wt" 2>/dev/null; rm -rf "$wt"; }
 trap cleanup EXIT
 out=/verif/seeded/$name; mkdir -p "$out"
-cp "$src/patch.diff" "$out/patch.diff"; cp "$src/meta.json" "$out/meta.agent.json" 2>/dev/null
-demo=$(ls "$src"/*_test.go 2>/dev/null | head -1)
-[ -n "$demo" ] && cp "$demo" "$out/"
+if [ -f "$src/patch.diff" ]; then
+  cp "$src/patch.diff" "$out/patch.diff"; cp "$src/meta.json" "$out/meta.agent.json" 2>/dev/null
+  d0=$(ls "$src"/*_test.go 2>/dev/null | head -1); [ -n "$d0" ] && cp "$d0" "$out/"
+fi
+demo=$(ls "$out"/*_test.go 2>/dev/null | head -1)
 place=$(head -3 "$demo" | grep -o 'place in: *[a-z0-9/]*' | head -1 | sed 's/place in: *//; s#/$##')
 [ -z "$place" ] && place=sdf
 res=""
